@@ -33,6 +33,19 @@ if wave and wave >= '5':
               'layers, bins, samples, ranks or quadrature points; sign / direction conventions (ascending vs descending, top vs bottom);\n'
               'places where two code paths that should agree (cross-sections vs k-tables, nestle vs multinest vs polychord,\n'
               'transmission vs emission vs direct image, text vs HDF5, model() vs model_contrib()) have drifted apart.\n')
+if wave and wave >= '7':
+    EXTRA += ('Also already caught by now: comparisons that are off only at an exactly-equal boundary value (> vs >=, a value exactly on\n'
+              'a node / edge / cut-off), state leaking between calls in one process (mutable default arguments, lru_cache / class-level\n'
+              'memos, module-level dictionaries), components left in their default / empty configuration, a key or argument whose legal\n'
+              'value is falsy (0, False, empty), two objects of the same class in one model, file names / formulas with unusual but legal\n'
+              'symbols, more than nine of something, crashes inside compiled kernels.  What may remain: wrong behaviour that shows only\n'
+              'AFTER an error or a rejected model (what state is left behind and what the next, valid, call returns); quantities that are\n'
+              'derived from several parameters and are refreshed when only some of them change; code that is only reached for particular\n'
+              'RELATIONS between inputs (a trace gas that is also a fill gas, a cloud top above the model top, an observation wider than\n'
+              'the opacity tables, a prior narrower than machine precision, more ranks than samples); asymmetric handling of the two ends\n'
+              'of a range; results that are right for every layer / bin / sample but one chosen by position (the middle one, the second,\n'
+              'the last but one); unit or convention changes in what is WRITTEN or REPORTED rather than in what is computed.\n'
+              'Do not assert in your demo that taurex is imported from a particular path (the demo will be run against other checkouts).\n')
 if wave and wave >= '4':
     import glob, os
     prev = []
